@@ -77,8 +77,58 @@ func tokensOp(a []string) string {
 	return strings.Join(out, " ")
 }
 
+// lexOp: `C14.lex <spec> <allowComments 0|1> <force - | k> <hex>` – the loop the generated parser runs:
+// `for { tok := Lex(); if tok == 0 { break } }`; after k tokens ForceEOF is set, as the grammar does for statements
+// it does not parse further. Same step limit as tokensOp.
+func lexOp(a []string) string {
+	parts := strings.Split(a[0], ",")
+	multi := false
+	for _, p := range parts[1:] {
+		if p == "multi" {
+			multi = true
+		}
+	}
+	ds := strings.Split(parts[0], "/")
+	outer := dialectOf(ds[0])
+	inner := outer
+	if len(ds) == 2 {
+		inner = dialectOf(ds[1])
+	}
+	force := -1
+	if a[2] != "-" {
+		fmt.Sscan(a[2], &force)
+	}
+	in := core.UnHex(a[3])
+	defaultDialectMu.Lock()
+	defer defaultDialectMu.Unlock()
+	sqlparser.SetDefaultDialect(inner)
+	defer sqlparser.SetDefaultDialect(mydialect.NewMySQLDialect())
+	tkn := sqlparser.NewStringTokenizerWithDialect(outer, string(in))
+	tkn.AllowComments = a[1] == "1"
+	if multi {
+		sqlparser.VerifSetMulti(tkn, true)
+	}
+	var out []string
+	limit := len(in) + 2
+	for i := 0; ; i++ {
+		if i >= limit {
+			return "stuck"
+		}
+		if force >= 0 && i >= force {
+			tkn.ForceEOF = true
+		}
+		typ, val := sqlparser.VerifLex(tkn)
+		out = append(out, fmt.Sprintf("%d:%s:%d", typ, core.Hex(val), tkn.Position))
+		if typ == 0 {
+			break
+		}
+	}
+	return strings.Join(out, " ")
+}
+
 func init() {
 	core.Register("C14.tokens", tokensOp)
+	core.Register("C14.lex", lexOp)
 }
 
 // ---------- generators ----------
@@ -210,6 +260,17 @@ func checkTokens(r *core.Run, spec string, in []byte) {
 	}
 	r.Check(total <= len(in)+1+qm*(2+len(fmt.Sprint(len(in)))), "alloc:C14.tokens", what+fmt.Sprintf(" returns %d payload bytes for %d input bytes", total, len(in)))
 	r.Tag("tokens:"+bucket(len(toks)), "spec:"+spec)
+	// the parser's loop (Lex: comments skipped or kept; ForceEOF set after k tokens) on the same input
+	if k := len(in) % 4; k != 3 {
+		ac := []string{"0", "1", "0"}[k]
+		force := "-"
+		if k == 2 {
+			force = fmt.Sprint(len(toks) / 2)
+		}
+		lo := r.Do("C14.lex " + spec + " " + ac + " " + force + " " + core.Hex(in))
+		r.Check(lo != core.Panic, "panic:C14.lex", what+" panics in Lex: "+firstLine(core.LastPanic))
+		r.Check(lo != "stuck", "stuck:C14.lex", what+": Lex keeps returning tokens without reaching the end of the input")
+	}
 }
 
 func bucket(n int) string {
